@@ -25,8 +25,8 @@ ID = "C19"
 LEVEL = "model_checking"
 RULE = (
     "(1) every well-nested program with <= L items over {with enable(True|False): ..., config.free_arithmetics = v, raise that "
-    "unwinds k levels and is caught, probe}, nesting depth <= 3; a probe records config.free_arithmetics and whether h *= [..] "
-    "(array operand) and h.frequencies=[-1,1] (negative contents) are accepted; oracle = stack-of-saved-values model. (2) fresh interpreters "
+    "unwinds k levels and is caught, probe}, nesting depth <= 3; a probe records config.free_arithmetics and whether h *= [..], "
+    "h += [..], h /= [..] (array operands) and h.frequencies=[-1,1] (negative contents) are accepted; oracle = stack-of-saved-values model. (2) fresh interpreters "
     "with PHYST_FREE_ARITHMETICS unset / '0' / '1'. (3) threads: every pair (and selected triples) of programs from a menu of "
     "flat programs, ALL interleavings at operation granularity under a baton scheduler (real threading.Thread objects), main "
     "thread holding False or True; plus line-granularity scheduling points (sys.settrace in config.py / histogram_base.py) with "
@@ -58,31 +58,44 @@ BUDGET = {"quick": 240, "thorough": 3000}
 def make_probe_hists():
     from physt.types import Histogram1D
 
-    return (Histogram1D(np.array([0.0, 1.0, 2.0]), np.array([1.0, 2.0])), Histogram1D(np.array([0.0, 1.0, 2.0]), np.array([1.0, 2.0])))
+    return tuple(Histogram1D(np.array([0.0, 1.0, 2.0]), np.array([1.0, 2.0])) for _ in range(4))
 
 
 def probe(hists=None):
-    """What the current context observes: the flag itself and the two guarded behaviours
-    (array operand in arithmetic - HistogramBase.__imul__; negative contents - the frequencies setter)."""
+    """What the current context observes: the flag itself and every guarded behaviour - array operands in
+    *=, += and /= (HistogramBase.__imul__ / __iadd__ / __itruediv__) and negative contents (frequencies setter)."""
     from physt.config import config
 
-    h1, h2 = hists if hists is not None else make_probe_hists()
+    h1, h2, h3, h4 = hists if hists is not None else make_probe_hists()
     flag = bool(config.free_arithmetics)
-    try:
+
+    def ok(f):
+        try:
+            f()
+            return True
+        except Exception:  # noqa: BLE001
+            return False
+
+    def imul():
+        nonlocal h1
         h1 *= [1, 2]
-        arr_ok = True
-    except Exception:  # noqa: BLE001
-        arr_ok = False
-    try:
+
+    def iadd():
+        nonlocal h3
+        h3 += [1, 2]
+
+    def idiv():
+        nonlocal h4
+        h4 /= [1, 2]
+
+    def setneg():
         h2.frequencies = np.array([-1.0, 1.0])
-        neg_ok = True
-    except Exception:  # noqa: BLE001
-        neg_ok = False
-    return (flag, arr_ok, neg_ok)
+
+    return (flag, ok(imul), ok(setneg), ok(iadd), ok(idiv))
 
 
 def expected_probe(v):
-    return (bool(v),) * 3
+    return (bool(v),) * 5
 
 
 # ---------------------------------------------------------------------------------------------
